@@ -68,6 +68,8 @@ func mkraccCoins(cs sdk.Coins) string {
 }
 
 func mkraccParseCoin(s string) sdk.Coin {
+	neg := strings.HasPrefix(s, "-") // only hand-written corpus lines: a coin no valid message carries
+	s = strings.TrimPrefix(s, "-")
 	i := 0
 	for i < len(s) && (s[i] >= '0' && s[i] <= '9') {
 		i++
@@ -75,6 +77,9 @@ func mkraccParseCoin(s string) sdk.Coin {
 	n, ok := new(big.Int).SetString(s[:i], 10)
 	if !ok {
 		n = big.NewInt(0)
+	}
+	if neg {
+		n.Neg(n)
 	}
 	return sdk.Coin{Denom: s[i:], Amount: sdkmath.NewIntFromBigInt(n)}
 }
@@ -138,6 +143,11 @@ func mkraccClass(err error) string {
 		return "err:forcedfrom"
 	case strings.Contains(m, "is not allowed to receive funds"):
 		return "err:blocked"
+	case strings.Contains(m, "negative coin amount"), strings.Contains(m, "invalid coins"),
+		strings.Contains(m, "less than pre-existing supply"),
+		strings.Contains(m, "zero total supply and no authorization for minting"),
+		strings.Contains(m, "a manager is required if there are no accounts"):
+		return "err:invalid"
 	case strings.Contains(m, "insufficient funds"), strings.Contains(m, "spendable balance"),
 		strings.Contains(m, "cannot reduce marker total supply below zero"):
 		return "err:funds"
@@ -946,7 +956,16 @@ func (e *mkraccEnv) scnDump() string {
 			bals = append(bals, n+":"+b.String())
 		}
 	}
-	return fmt.Sprintf("rec=%s esc=%s sup=%s acl=%s bals=%s", m.GetSupply().Amount, e.app.BankKeeper.GetBalance(e.sctx, maddr, mkraccScn).Amount,
+	st := map[markertypes.MarkerStatus]string{markertypes.StatusProposed: "proposed", markertypes.StatusFinalized: "finalized",
+		markertypes.StatusActive: "active", markertypes.StatusCancelled: "cancelled", markertypes.StatusDestroyed: "destroyed"}[m.GetStatus()]
+	mgr := "-"
+	if a := m.GetManager(); len(a) > 0 {
+		mgr = "?"
+		if n, ok := e.name[a.String()]; ok {
+			mgr = strings.TrimPrefix(n, "S")
+		}
+	}
+	return fmt.Sprintf("st=%s mgr=%s rec=%s esc=%s sup=%s acl=%s bals=%s", st, mgr, m.GetSupply().Amount, e.app.BankKeeper.GetBalance(e.sctx, maddr, mkraccScn).Amount,
 		e.app.BankKeeper.GetSupply(e.sctx, mkraccScn).Amount, JoinOr(acl, "|"), JoinOr(bals, "|"))
 }
 
@@ -973,6 +992,26 @@ func (e *mkraccEnv) scenario(ws []string) string {
 			AccessList:  []markertypes.AccessGrant{{Address: a.String(), Permissions: e.scnRights(kvArg(ws, "acc"))}},
 			SupplyFixed: kvArg(ws, "fixed") == "1", AllowGovernanceControl: true}
 		f = func(ctx sdk.Context) error { _, err := e.srv.AddFinalizeActivateMarker(ctx, msg); return err }
+	case "sprop":
+		e.sctx, _ = e.base.CacheContext()
+		mt := markertypes.MarkerType_Coin
+		if kvArg(ws, "ty") == "restricted" {
+			mt = markertypes.MarkerType_RestrictedCoin
+		}
+		a := e.addr["SA"]
+		msg := &markertypes.MsgAddMarkerRequest{Amount: amt(), FromAddress: a.String(), Status: markertypes.StatusProposed, MarkerType: mt,
+			AccessList:  []markertypes.AccessGrant{{Address: a.String(), Permissions: e.scnRights(kvArg(ws, "acc"))}},
+			SupplyFixed: kvArg(ws, "fixed") == "1", AllowGovernanceControl: true}
+		f = func(ctx sdk.Context) error { _, err := e.srv.AddMarker(ctx, msg); return err }
+	case "sfin":
+		msg := &markertypes.MsgFinalizeRequest{Denom: mkraccScn, Administrator: who("by").String()}
+		f = func(ctx sdk.Context) error { _, err := e.srv.Finalize(ctx, msg); return err }
+	case "sact":
+		msg := &markertypes.MsgActivateRequest{Denom: mkraccScn, Administrator: who("by").String()}
+		f = func(ctx sdk.Context) error { _, err := e.srv.Activate(ctx, msg); return err }
+	case "scan":
+		msg := &markertypes.MsgCancelRequest{Denom: mkraccScn, Administrator: who("by").String()}
+		f = func(ctx sdk.Context) error { _, err := e.srv.Cancel(ctx, msg); return err }
 	case "sadd":
 		msg := &markertypes.MsgAddAccessRequest{Denom: mkraccScn, Administrator: who("by").String(),
 			Access: []markertypes.AccessGrant{{Address: who("to").String(), Permissions: e.scnRights(kvArg(ws, "rights"))}}}
@@ -992,7 +1031,7 @@ func (e *mkraccEnv) scenario(ws []string) string {
 	default:
 		return "err:bad-op"
 	}
-	if !e.sctxOK && ws[0] != "smk" {
+	if !e.sctxOK && ws[0] != "smk" && ws[0] != "sprop" {
 		return "err:bad-op"
 	}
 	e.sctxOK = true
@@ -1009,7 +1048,7 @@ func (e *mkraccEnv) scenario(ws []string) string {
 func (e *mkraccEnv) exec(op string) string {
 	ws := strings.Fields(op)
 	switch ws[0] {
-	case "smk", "sadd", "sdel", "smint", "sburn", "swd":
+	case "smk", "sprop", "sfin", "sact", "scan", "sadd", "sdel", "smint", "sburn", "swd":
 		return e.scenario(ws)
 	case "probe":
 		return e.probe(ws)
@@ -1247,6 +1286,9 @@ func driveMkraccApp(t *testing.T, rng *RNG, n int, out *Out) {
 				amt = ref - 1
 			case k < 37:
 				amt = 0
+			case k < 40:
+				amt = -int64(1 + rng.Intn(6)) // refused by ValidateBasic before anything is looked at
+				out.Count("xfer:negative-amount")
 			default:
 				if ref > 1 {
 					amt = 1 + int64(rng.Intn(int(ref)))/2
@@ -1484,13 +1526,52 @@ func mkraccGenScenario(rng *RNG, out *Out, emit func(string) string, e *mkraccEn
 			acc = append(acc, a)
 		}
 	}
-	emit(fmt.Sprintf("smk amt=%d fixed=%s ty=%s acc=%s", amt, mkraccB01(fixed), ty, strings.Join(acc, "+")))
-	out.Count(fmt.Sprintf("scn:create amt=%d fixed=%s", amt, mkraccB01(fixed)))
+	// 45%: the marker starts proposed under its manager A and goes through its life cycle
+	pending := rng.Chance(45)
+	stage := 2 // 0 proposed, 1 finalized, 2 active, 3 cancelled (as far as the generator knows)
+	if pending {
+		stage = 0
+		emit(fmt.Sprintf("sprop amt=%d fixed=%s ty=%s acc=%s", amt, mkraccB01(fixed), ty, strings.Join(acc, "+")))
+		out.Count(fmt.Sprintf("scn:propose amt=%d fixed=%s", amt, mkraccB01(fixed)))
+	} else {
+		emit(fmt.Sprintf("smk amt=%d fixed=%s ty=%s acc=%s", amt, mkraccB01(fixed), ty, strings.Join(acc, "+")))
+		out.Count(fmt.Sprintf("scn:create amt=%d fixed=%s", amt, mkraccB01(fixed)))
+	}
 	actors := []string{"A", "B", "D", "E"}
 	steps := 4 + rng.Intn(6)
+	if pending {
+		steps += 3
+	}
 	for i := 0; i < steps; i++ {
 		by := Pick(rng, actors)
 		var op string
+		if (pending && stage < 2 && rng.Chance(32)) || rng.Chance(5) {
+			// life-cycle message: mostly the next one, mostly by the manager
+			next := []string{"sfin", "sact", "scan", "scan"}[stage]
+			if rng.Chance(35) {
+				next = Pick(rng, []string{"sfin", "sact", "scan"})
+			}
+			if pending && rng.Chance(65) {
+				by = "A"
+			}
+			op = fmt.Sprintf("%s by=%s", next, by)
+			r := emit(op)
+			out.Count(fmt.Sprintf("scn:%s@stage%d/%s", next, stage, resClass(r)))
+			if strings.HasPrefix(r, "ok") {
+				switch {
+				case strings.Contains(r, "st=finalized"):
+					stage = 1
+				case strings.Contains(r, "st=active"):
+					stage = 2
+					if by == "A" {
+						out.Count("scn:activated-by-manager")
+					}
+				case strings.Contains(r, "st=cancelled"):
+					stage = 3
+				}
+			}
+			continue
+		}
 		switch k := rng.Intn(100); {
 		case k < 35:
 			var rs []string
@@ -1524,6 +1605,9 @@ func mkraccGenScenario(rng *RNG, out *Out, emit func(string) string, e *mkraccEn
 		}
 		r := emit(op)
 		out.Count("scn:" + strings.Fields(op)[0] + "/" + resClass(r))
+		if pending {
+			out.Count(fmt.Sprintf("scn:%s@stage%d/%s", strings.Fields(op)[0], stage, resClass(r)))
+		}
 		if strings.HasPrefix(op, "sadd") && by != "A" && strings.HasPrefix(r, "ok") {
 			out.Count("scn:sadd-ok-by-other-than-creator")
 		}
